@@ -72,7 +72,7 @@ Theorem scale_sparse_req (S : sparse V) (d : vec) (nd : bool) (fshape : shape) (
     forall i, den_sp v0 R i = spec_scale vmul (den_sp v0 S) (nats (np_sort d)) g i.
 Proof.
   intros W Hok Ef. unfold impl_scale_sp_req. rewrite (dimscheck_dims _ None d Hok). cbn zeta.
-  rewrite <- Ef, idx_eqb_refl, andb_false_r.
+  rewrite <- Ef, idx_eqb_refl.
   destruct (Nat.eqb (length (ssubs S)) 0) eqn:E0.
   - exists S. split; [reflexivity|]. split; [reflexivity|]. split; [exact W|].
     intros i. apply Nat.eqb_eq, length_zero_iff_nil in E0. unfold spec_scale.
@@ -81,11 +81,11 @@ Proof.
     exact (impl_scale_sp_correct V v0 v1 vadd vmul vsub vopp Vring isz isz_spec S (nats (np_sort d)) g W).
 Qed.
 
-(* d89c921: an ill-shaped tensor / sptensor factor is rejected by EVERY receiver, also one that stores no entry *)
-Theorem scale_sparse_req_rejects_shape (S : sparse V) (d : vec) (fshape : shape) (g : idx -> V) :
+(* d89c921 + 98f7017: an ill-shaped factor of EVERY class (tensor / sptensor / ndarray) is rejected by EVERY receiver, also one that stores no entry *)
+Theorem scale_sparse_req_rejects_shape (S : sparse V) (d : vec) (nd : bool) (fshape : shape) (g : idx -> V) :
   dims_ok (Z.of_nat (length (sshape S))) None d ->
   fshape <> pick 0 (nats (np_sort d)) (sshape S) ->
-  impl_scale_sp_req vmul isz S d false fshape g = Err.
+  impl_scale_sp_req vmul isz S d nd fshape g = Err.
 Proof.
   intros Hok Hne. unfold impl_scale_sp_req. rewrite (dimscheck_dims _ None d Hok). cbn zeta.
   rewrite (idx_eqb_neq _ _ Hne). cbn. now destruct (Nat.eqb (length (ssubs S)) 0).
